@@ -37,6 +37,9 @@ type c17case struct {
 	LibExplicit bool `json:"lib_files_also_imported_by_name,omitempty"`
 	// LibFileFirst: every importer of the directory names its first file (lib/l100.yaml) in front of the directory
 	LibFileFirst bool `json:"file_of_the_directory_imported_first,omitempty"`
+	// Odd: the directory also holds a symbolic link to a .yaml file kept elsewhere; the root also imports a .yml file and a
+	// directory with a dot in its name
+	Odd bool `json:"symlinked_file_yml_and_dotted_directory,omitempty"`
 	// CaseTwin: the root also imports two files whose names differ only in letter case
 	CaseTwin bool `json:"names_differing_in_case_only,omitempty"`
 }
@@ -88,6 +91,9 @@ func runC17(c *h.Ctx, idx int, cs c17case) {
 		if cs.CaseTwin && i == cs.Root {
 			imps = append(imps, "Twin.yaml", "twin.yaml")
 		}
+		if cs.Odd && i == cs.Root {
+			imps = append(imps, "extra.yml", "conf.d")
+		}
 		content := fileDef(i, imps)
 		if i == cs.Break {
 			switch cs.How {
@@ -120,6 +126,16 @@ func runC17(c *h.Ctx, idx int, cs c17case) {
 		if cs.LibExplicit {
 			h.WriteFile(real+"/lib/extra.json", "{\"tasks\": {\"task_200\": {\"command\": [\"true\"]}}, \"pipelines\": {\"pipe_200\": [{\"task\": \"task_200\"}]}, \"contexts\": {\"ctx_200\": {\"env\": {\"A\": \"1\"}}}}")
 			h.WriteFile(real+"/lib/more.toml", "[tasks.task_201]\ncommand = [\"true\"]\n[[pipelines.pipe_201]]\ntask = \"task_201\"\n[contexts.ctx_201.env]\nA = \"1\"\n")
+		}
+	}
+	if cs.Odd {
+		rd := filepath.Dir(real + "/" + c17path(cs.Root))
+		h.WriteFile(rd+"/extra.yml", fileDef(400, nil))
+		h.WriteFile(rd+"/conf.d/one.yaml", fileDef(401, nil))
+		h.WriteFile(rd+"/conf.d/two.yaml", fileDef(402, nil))
+		if len(cs.DirImp) > 0 {
+			h.WriteFile(real+"/shared/common.yaml", fileDef(403, nil))
+			os.Symlink(real+"/shared/common.yaml", real+"/lib/l102.yaml")
 		}
 	}
 	if cs.CaseTwin {
@@ -160,6 +176,12 @@ func runC17(c *h.Ctx, idx int, cs c17case) {
 	}
 	if cs.CaseTwin {
 		want = append(want, "task_300", "task_301")
+	}
+	if cs.Odd {
+		want = append(want, "task_400", "task_401", "task_402")
+		if dirReached {
+			want = append(want, "task_403")
+		}
 	}
 	sort.Strings(want)
 	brokenInClosure := (cs.Break >= 0 && seen[cs.Break]) || (cs.Break == -2 && dirReached)
@@ -371,6 +393,8 @@ func c17(c *h.Ctx) {
 	// a file of the directory imports a sibling that sorts later in the same directory
 	cases = append(cases, c17case{N: 1, Edges: [][]int{{}}, Root: 0, DirImp: []int{0}, Break: -1, LibImp: -1, LibSib: true})
 	cases = append(cases, c17case{N: 2, Edges: [][]int{{1}, {}}, Root: 0, DirImp: []int{1}, Break: -1, LibImp: 0, LibSib: true})
+	cases = append(cases, c17case{N: 1, Edges: [][]int{{}}, Root: 0, DirImp: []int{0}, Break: -1, LibImp: -1, Odd: true})
+	cases = append(cases, c17case{N: 2, Edges: [][]int{{1}, {}}, Root: 0, Break: -1, LibImp: -1, Odd: true})
 	cases = append(cases, c17case{N: 1, Edges: [][]int{{}}, Root: 0, DirImp: []int{0}, Break: -1, LibImp: -1, LibFileFirst: true})
 	cases = append(cases, c17case{N: 2, Edges: [][]int{{1}, {}}, Root: 0, DirImp: []int{1, 0}, Break: -1, LibImp: -1, LibFileFirst: true, LibSib: true})
 	cases = append(cases, c17case{N: 1, Edges: [][]int{{}}, Root: 0, DirImp: []int{0}, Break: -1, LibImp: -1, LibExplicit: true})
@@ -403,6 +427,7 @@ func c17(c *h.Ctx) {
 			cs.LibFileFirst = rnd.Chance(35)
 		}
 		cs.CaseTwin = rnd.Chance(20)
+		cs.Odd = rnd.Chance(25)
 		if rnd.Chance(30) {
 			cs.Break = rnd.Intn(n)
 			cs.How = []string{"missing", "syntax", "wrongtype"}[rnd.Intn(3)]
